@@ -28,7 +28,9 @@ def meta(tier, seed):
                   "seed and calls: complete canonical object graphs equal up to the binarizer fields, or predict and "
                   "predict_expectations on the query set identical (equal Beta parameters => equal draws)",
         "bounds": {"rows_max": 3 if tier == "quick" else 4, "row_alphabet": ROWS, "binarizers": BINS,
-                   "neighbourhood_policies": NPS_, "variants": ["plain", "add_arm(3, new binarizer) after the first call"]},
+                   "neighbourhood_policies": NPS_, "variants": ["plain", "add_arm(3, new binarizer) after the first call"],
+                   "n_jobs": "1; additionally 2 (joblib model, default schedule) with up to 3 rows for %s" % (
+                       ["none", "rad", "tree"] if tier == "quick" else NPS_)},
         "assumptions": [],
     }
 
@@ -39,6 +41,12 @@ def shards(tier, seed):
         for b in BINS:
             for first in range(len(ROWS)):
                 out.append({"nn": nn, "bin": b, "nmax": 3 if tier == "quick" else 4, "first": first, "seed": 121 + seed})
+    # the same histories with the work partitioned over two jobs (joblib model, default schedule): every reward must
+    # still meet the binarizer once, with the decision of its own row
+    for nn in (["none", "rad", "tree"] if tier == "quick" else NPS_):
+        for b in BINS:
+            for first in range(len(ROWS)):
+                out.append({"nn": nn, "bin": b, "nmax": 3, "first": first, "seed": 121 + seed, "n_jobs": 2})
     return A.heavy_first(out)
 
 
@@ -80,10 +88,18 @@ def run_ops(cfg, oplist):
     return m
 
 
-def judge(nn, b, seed, seq, comp, variant):
+def judge(nn, b, seed, seq, comp, variant, n_jobs=1):
+    if n_jobs > 1:
+        from .. import sched
+        with sched.model():
+            return _judge(nn, b, seed, seq, comp, variant, n_jobs)
+    return _judge(nn, b, seed, seq, comp, variant, n_jobs)
+
+
+def _judge(nn, b, seed, seq, comp, variant, n_jobs):
     """-> (messages, nontrivial) | None if the sequence is not a valid training history for this policy"""
-    cfg_s = A.config(["ThompsonSampling", {"binarizer": b}], nn, seed=seed)
-    cfg_t = A.config(["ThompsonSampling", {}], nn, seed=seed)
+    cfg_s = A.config(["ThompsonSampling", {"binarizer": b}], nn, seed=seed, n_jobs=n_jobs)
+    cfg_t = A.config(["ThompsonSampling", {}], nn, seed=seed, n_jobs=n_jobs)
     sub_ops, twin_ops, nontrivial = build_ops(seq, comp, b, variant)
     try:
         t = run_ops(cfg_t, twin_ops)
@@ -107,27 +123,28 @@ def judge(nn, b, seed, seq, comp, variant):
 def run_shard(shard):
     nn, b, seed = shard["nn"], shard["bin"], shard["seed"]
     acc = report.Acc(ID, replay, shard)
-    cfg_s = A.config(["ThompsonSampling", {"binarizer": b}], nn, seed=seed)
+    nj = shard.get("n_jobs", 1)
+    cfg_s = A.config(["ThompsonSampling", {"binarizer": b}], nn, seed=seed, n_jobs=nj)
     for n in range(1, shard["nmax"] + 1):
         for seq in itertools.product(ROWS, repeat=n):
             if seq[0] != ROWS[shard["first"]]:
                 continue
             for comp in A.compositions(n):
                 for variant in ("plain", "add"):
-                    res = judge(nn, b, seed, list(seq), comp, variant)
+                    res = judge(nn, b, seed, list(seq), comp, variant, nj)
                     if res is None:
                         acc.skip("not a valid training history for this policy (too few rows for k / clusters)")
                         continue
                     msgs, nontrivial = res
                     acc.traces += 1
-                    key = (nn, b, str(seq), str(comp), variant)
+                    key = (nn, b, str(seq), str(comp), variant, nj)
                     acc.state(key)
                     acc.case(key if nontrivial else None)
                     acc.outcome([nn, b, variant, len(msgs)])
                     if msgs:
                         acc.violation("%s %s %s" % (nn, b, variant),
                                       {"cfg": cfg_s, "nn": nn, "bin": b, "seed": seed, "seq": list(seq), "comp": comp,
-                                       "variant": variant,
+                                       "variant": variant, "n_jobs": nj,
                                        "history": build_ops(list(seq), comp, b, variant)[0]}, msgs[0])
                     elif n == 2 and variant == "add" and len(comp) == 2 and len(acc.samples) < 2:
                         acc.sample({"cfg": cfg_s, "history": build_ops(list(seq), comp, b, variant)[0], "queries": QUERIES})
@@ -135,5 +152,6 @@ def run_shard(shard):
 
 
 def replay(w):
-    res = judge(w["nn"], w["bin"], w["seed"], [tuple(r) for r in w["seq"]], [tuple(c) for c in w["comp"]], w["variant"])
+    res = judge(w["nn"], w["bin"], w["seed"], [tuple(r) for r in w["seq"]], [tuple(c) for c in w["comp"]], w["variant"],
+                w.get("n_jobs", 1))
     return [] if res is None else res[0]
